@@ -217,7 +217,7 @@ def io_recv_cfg(msg, nmsgs, chunk, faults, policy, record, arbitrary=False, rawl
         txt += "VIEW View\n"
     txt += "INVARIANTS WindowInv HeadInv GuardInside BoundedCalls DeliveredInOrder ClosedMeansAll ParseNotStarve\n"
     if live:
-        txt += "PROPERTY Terminates\n"
+        txt += "INVARIANT WindowIndInv\nPROPERTY Terminates RefinesWindow\n"
     txt += "CHECK_DEADLOCK FALSE\n"
     return {"type": "tlc-only" if not record else "tlc-replay", "module": "MCIoRecv", "cfg": name, "cfg_text": txt, "io_traces": record, "io_traces_limit": 300}
 
@@ -330,7 +330,7 @@ PLANS.update({
 })
 
 # ---- unbounded window arithmetic (Apalache, inductive invariant) --------------------------------------
-APALACHE_WINDOW = {"type": "apalache", "module": "apalache/IoWindow", "obligations": [
+APALACHE_WINDOW = {"type": "apalache", "module": "IoWindow", "obligations": [
     {"name": "Init => IndInv", "args": ["--cinit=ConstInit", "--init=Init", "--inv=IndInv", "--length=0"]},
     {"name": "IndInv /\\ Next => IndInv'", "args": ["--cinit=ConstInit", "--init=IndInit", "--inv=IndInv", "--length=1"]},
     {"name": "IndInv => Safety", "args": ["--cinit=ConstInit", "--init=IndInit", "--inv=Safety", "--length=0"]},
@@ -338,7 +338,7 @@ APALACHE_WINDOW = {"type": "apalache", "module": "apalache/IoWindow", "obligatio
 for pid in ("C07", "C10"):
     for tier in ("quick", "thorough"):
         PLANS[pid][tier].append(APALACHE_WINDOW)
-    PLANS[pid]["rule"] += "; plus, for every capacity / alignment / chunk size / message size at once, the window arithmetic (WindowInv, conservation, GuardInside) as an inductive invariant discharged by Apalache (spec/apalache/IoWindow.tla)"
+    PLANS[pid]["rule"] += "; plus, for every capacity / alignment / chunk size / message size at once, the window arithmetic (WindowInv, conservation, GuardInside) as an inductive invariant discharged by Apalache (spec/IoWindow.tla; TLC checks on the permissive instances that IoRecv refines it)"
     PLANS[pid]["must_exercise"].append("apalache.obligations")
 
 # ---- the rounding arithmetic of the layout rules, proved for all integers (TLAPS) ------------------------
@@ -353,7 +353,7 @@ META = {
     "hook_commits": ["9b2ae68"],
     "engines": [
         {"name": "tlc", "path": "/verif/spec", "serves_properties": sorted(PLANS), "kind_free_text": "explicit TLA+ specification of the flat format, checked with TLC; prints one replayable case per explored state"},
-        {"name": "apalache", "path": "/verif/spec/apalache", "serves_properties": ["C07", "C10"], "kind_free_text": "Apalache (symbolic) check that the receive-window arithmetic is an inductive invariant for every capacity, alignment, chunk and message size"},
+        {"name": "apalache", "path": "/verif/spec/IoWindow.tla", "serves_properties": ["C07", "C10"], "kind_free_text": "Apalache (symbolic) check that the receive-window arithmetic is an inductive invariant for every capacity, alignment, chunk and message size"},
         {"name": "tlaps", "path": "/verif/spec/tlaps", "serves_properties": ["C04"], "kind_free_text": "TLA+ proof system (tlapm, SMT back end): the rounding lemmas behind the layout rule for all integers"},
         {"name": "harness", "path": "/verif/harness", "serves_properties": sorted(PLANS), "kind_free_text": "Rust replayer built against /repo's working tree: replays TLC's cases into the real API inside guard-paged memory and judges each property's projection"},
     ],
